@@ -17,7 +17,13 @@ Vocabulary (z3 symbol -> Lean term), all over ℤ:
                                on the Lean side = the Lean statement is stronger)
   coordinate vocabulary        G := Curve (EdwardsGroup.lean): ed_x(P) -> (P.1.1.val : ℤ), ed_y(P) -> (P.1.2.val : ℤ),
                                ed_diff_ok(A,B) -> (A - B).1.1 ≠ 0 ∧ (A - B).1.2 ≠ 0, ed_xrecover(y) -> spake_xrecover y (the generated
-                               mirror of the real function), ed_oncurve(x,y) -> spake_isoncurve x y (generated mirror)
+                               mirror of the real function), ed_oncurve(x,y) -> spake_isoncurve x y (generated mirror),
+                               ed_valid -> Valid, ed_valid3 -> Valid3 (EdwardsProofs.lean), ed_pt(X,Y,Z) -> edPt X Y Z, ed_aff(x,y) -> edAff x y,
+                               ed_B -> edB (BridgeVocab.lean: the Curve point with those coordinates, 0 if they are not on the curve)
+
+Contracts of the coordinate-level functions (contracts/ed25519.py, back end `lean`) are bridged the same way: their `requires` /
+`ensures` clause texts are printed over the generated mirror `spake_<function>` (`Bridge.cstmt_<function>`) and proved in
+BridgeProofsCurve.lean (`Bridge.cbridge_<function>`) from the theorems of EdwardsProofs.lean.
 """
 import z3
 from . import theory, sym
@@ -30,8 +36,11 @@ SIG = {
     "ed_insub_O": "", "ed_prime_order": "iP", "ed_ladder_diff": "iP", "ed_add_zero": "P", "ed_add_comm": "PP", "ed_neg_mul": "P",
     "ed_neg_def": "P", "ed_mul_one": "P", "ed_mul_mul": "iiP", "ed_mul_O": "i", "ed_neg_O": "", "ed_insub_neg": "P",
     "ed_same_y": "PP", "ed_xrecover_complete": "iP", "ed_enc_injective": "PP",
+    "voc_O_coords": "", "voc_coords_range": "P", "voc_valid_reduced": "iiii", "voc_B_def": "", "voc_point_on_curve": "P",
+    "voc_point_aff": "P", "voc_point_ext": "PP", "voc_aff_O": "",
 }
-COORD = {"ed_same_y", "ed_ladder_diff", "ed_xrecover_complete", "ed_enc_injective"}      # need the concrete curve (G := Curve)
+COORD = {"ed_same_y", "ed_ladder_diff", "ed_xrecover_complete", "ed_enc_injective", "voc_O_coords", "voc_coords_range", "voc_valid_reduced",
+         "voc_B_def", "voc_point_on_curve", "voc_point_aff", "voc_point_ext", "voc_aff_O"}      # need the concrete curve (G := Curve)
 VARNAMES = {"i": ["a", "b", "c", "e"], "P": ["P", "R", "T"], "E": ["G0", "M", "N"], "g": ["gid"]}
 
 
@@ -62,6 +71,8 @@ def to_lean(e, names, coord):
             return names[n]
         if n == "ed_O":
             return "(0 : G)"
+        if n == "ed_B" and coord:
+            return "edB"
         raise BridgeError("constant %s" % n)
     k = e.decl().kind()
     ch = [to_lean(c, names, coord) for c in e.children()]
@@ -130,6 +141,14 @@ def to_lean(e, names, coord):
                 return "(spake_xrecover %s)" % ch[0]
             if n == "ed_oncurve":
                 return "(spake_isoncurve %s %s)" % (ch[0], ch[1])
+            if n == "ed_valid":
+                return "(Valid %s %s %s %s)" % tuple(ch)
+            if n == "ed_valid3":
+                return "(Valid3 %s %s %s)" % tuple(ch)
+            if n == "ed_pt":
+                return "(edPt %s %s %s)" % tuple(ch)
+            if n == "ed_aff":
+                return "(edAff %s %s)" % tuple(ch)
         raise BridgeError("symbol %s" % n)
     raise BridgeError("operator %s" % e.decl().name())
 
@@ -160,7 +179,7 @@ def statement(name):
     f = theory.instantiate(name, args)
     body = to_lean(f, names, coord)
     if coord:
-        head = "∀ (hQ : Fact (Nat.Prime Q)) (hL : Nat.Prime Lc), ∀ %s, " % " ".join(b.replace(": G)", ": Curve)") for b in binders) if binders else ""
+        head = "∀ (hQ : Fact (Nat.Prime Q)) (hL : Nat.Prime Lc), " + (("∀ %s, " % " ".join(b.replace(": G)", ": Curve)") for b in binders)) if binders else "")
         body = body.replace("(0 : G)", "(0 : Curve)")
     else:
         if "P" in sig or "E" in sig or "(0 : G)" in body:
@@ -168,6 +187,152 @@ def statement(name):
         else:
             head = "∀ " + " ".join(binders) + ", "
     return "def stmt_%s : Prop :=\n  %s%s\n" % (name, head, body), coord
+
+
+# ---- contracts of the Lean-backed functions --------------------------------------------------------------------------------------
+import ast as _ast
+
+
+class _ClausePrinter:
+    """Python clause expression (contract language) -> Lean, over integer components of the tuple parameters"""
+
+    def __init__(self, comps, result):
+        self.comps = comps          # parameter name -> list of Lean component names
+        self.result = result        # list of Lean terms for the components of `result` (or a single term)
+
+    def tup(self, e):
+        """components of a tuple-valued expression"""
+        if isinstance(e, _ast.Name) and e.id in self.comps:
+            return self.comps[e.id]
+        if isinstance(e, _ast.Name) and e.id == "result" and isinstance(self.result, list):
+            return self.result
+        raise BridgeError("tuple expression %s" % _ast.unparse(e))
+
+    def term(self, e):
+        if isinstance(e, _ast.Constant) and isinstance(e.value, int) and not isinstance(e.value, bool):
+            return _lit(e.value)
+        if isinstance(e, _ast.Name):
+            if e.id == "Q":
+                return "(Q : ℤ)"
+            if e.id == "result" and not isinstance(self.result, list):
+                return self.result
+            if e.id in self.comps and len(self.comps[e.id]) == 1:
+                return self.comps[e.id][0]
+            raise BridgeError("name %s" % e.id)
+        if isinstance(e, _ast.Subscript) and isinstance(e.slice, _ast.Constant):
+            return self.tup(e.value)[e.slice.value]
+        if isinstance(e, _ast.Call) and isinstance(e.func, _ast.Attribute) and isinstance(e.func.value, _ast.Name) and e.func.value.id == "spec":
+            f, a = e.func.attr, e.args
+            if f == "ed_pt":
+                return "(edPt %s %s %s)" % tuple(self.tup(a[0])[:3])
+            if f == "ed_aff":
+                return "(edAff %s %s)" % (self.term(a[0]), self.term(a[1]))
+            if f == "ed_add":
+                return "(%s + %s)" % (self.term(a[0]), self.term(a[1]))
+            if f == "ed_O":
+                return "(0 : Curve)"
+            if f == "ed_x":
+                return "((%s).1.1.val : ℤ)" % self.term(a[0])
+            if f == "ed_y":
+                return "((%s).1.2.val : ℤ)" % self.term(a[0])
+            raise BridgeError("spec term %s" % f)
+        raise BridgeError("term %s" % _ast.unparse(e))
+
+    def prop(self, e):
+        if isinstance(e, _ast.BoolOp):
+            return "(" + (" ∧ " if isinstance(e.op, _ast.And) else " ∨ ").join(self.prop(v) for v in e.values) + ")"
+        if isinstance(e, _ast.UnaryOp) and isinstance(e.op, _ast.Not):
+            return "(¬ %s)" % self.prop(e.operand)
+        if isinstance(e, _ast.Name) and e.id == "result" and not isinstance(self.result, list):
+            return self.result
+        if isinstance(e, _ast.Compare) and len(e.ops) == 1:
+            l, r = e.left, e.comparators[0]
+            op = {_ast.Eq: "=", _ast.NotEq: "≠", _ast.Lt: "<", _ast.LtE: "≤", _ast.Gt: ">", _ast.GtE: "≥"}[type(e.ops[0])]
+            lp, rp = self.is_prop(l), self.is_prop(r)
+            if lp or rp:
+                if op != "=":
+                    raise BridgeError("comparison of propositions")
+                return "(%s ↔ %s)" % (self.prop(l), self.prop(r))
+            return "(%s %s %s)" % (self.term(l), op, self.term(r))
+        if isinstance(e, _ast.Call) and isinstance(e.func, _ast.Name) and e.func.id == "implies":
+            return "(%s → %s)" % (self.prop(e.args[0]), self.prop(e.args[1]))
+        if isinstance(e, _ast.Call) and isinstance(e.func, _ast.Attribute) and isinstance(e.func.value, _ast.Name) and e.func.value.id == "spec":
+            f, a = e.func.attr, e.args
+            if f == "ed_valid":
+                return "(Valid %s %s %s %s)" % tuple(self.tup(a[0]))
+            if f == "ed_valid3":
+                return "(Valid3 %s %s %s)" % tuple(self.tup(a[0])[:3])
+            if f == "ed_oncurve":
+                return "(spake_isoncurve %s %s)" % (self.term(a[0]), self.term(a[1]))
+            if f == "ed_diff_ok":
+                x, y = self.term(a[0]), self.term(a[1])
+                return "((%s - %s).1.1 ≠ 0 ∧ (%s - %s).1.2 ≠ 0)" % (x, y, x, y)
+            raise BridgeError("spec predicate %s" % f)
+        raise BridgeError("proposition %s" % _ast.unparse(e))
+
+    def is_prop(self, e):
+        if isinstance(e, (_ast.Compare, _ast.BoolOp)):
+            return True
+        if isinstance(e, _ast.Name) and e.id == "result" and not isinstance(self.result, list) and self.result == "r":
+            return self.result_is_prop
+        return isinstance(e, _ast.Call) and isinstance(e.func, _ast.Attribute) and e.func.attr in ("ed_valid", "ed_valid3", "ed_oncurve", "ed_diff_ok")
+
+    result_is_prop = False
+
+
+def contract_statement(reg, repo, qual):
+    """`def cstmt_<fn> : Prop` : for all integer arguments, requires -> (let r := spake_<fn> args; all ensures clauses)"""
+    from . import leanback, leangen
+    c = reg.get(qual)
+    fn = qual.split(".")[-1]
+    gf = {g[0]: g for g in leanback.GEN_FUNCS}[fn]
+    m = repo.modules["ed25519_basic"]
+    node = m.functions[fn].node
+    comps, binders = {}, []
+    for a in node.args.args:
+        k = gf[1].get(a.arg, 1)
+        names = ["%s_%d" % (leangen.lname(a.arg), i) for i in range(k)] if k > 1 else [leangen.lname(a.arg)]
+        comps[a.arg] = names
+        binders += names
+    rt = gf[2]
+    n_res = rt.count("×") + 1
+    if rt == "Prop":
+        result = "r"
+    elif n_res == 1:
+        result = "r"
+    else:
+        result = ["r" + ".2" * i + (".1" if i < n_res - 1 else "") for i in range(n_res)]
+    pr = _ClausePrinter(comps, result)
+    pr.result_is_prop = rt == "Prop"
+    pre = [pr.prop(cl.expr_ast) for cl in c.pre]
+    post = []
+    for cl in c.post:
+        if cl.when_ast is not None:
+            post.append("(%s → %s)" % (pr.prop(cl.when_ast), pr.prop(cl.expr_ast)))
+        else:
+            post.append(pr.prop(cl.expr_ast))
+    if c.exc or not post:
+        raise BridgeError("contract shape of %s" % qual)
+    body = "let r := spake_%s %s; (%s)" % (fn, " ".join(binders), " ∧ ".join(post))
+    for h in reversed(pre):
+        body = "%s → (%s)" % (h, body)
+    return "def cstmt_%s : Prop :=\n  ∀ (hQ : Fact (Nat.Prime Q)) (%s : ℤ), %s\n" % (fn, " ".join(binders), body)
+
+
+def contract_statements(repo=None):
+    from .contracts import load_all
+    from .repo import Repo
+    repo = repo or Repo()
+    reg = load_all()
+    out, errors, names = "", {}, []
+    for q, c in sorted(reg.contracts.items()):
+        if getattr(c, "lean_theorem", None) and not c.abstract_flag:
+            try:
+                out += contract_statement(reg, repo, q) + "\n"
+                names.append(q.split(".")[-1])
+            except Exception as e:
+                errors["contract:" + q] = "%s: %s" % (type(e).__name__, e)
+    return out, errors, names
 
 
 def generate():
@@ -230,7 +395,10 @@ def assemble(repo=None, proofs=True, part="curve"):
     ed = open(os.path.join(D, "EdwardsHeader.lean")).read() + "\n" + gen + "\n" + open(os.path.join(D, "EdwardsProofs.lean")).read() + "\n" \
         + open(os.path.join(D, "EdwardsExtra.lean")).read() + "\n" + open(os.path.join(D, "EdwardsGroup.lean")).read()
     imports = sorted(set(re.findall(r"^import .*$", ed + "\n" + alg + "\n" + primes, re.M)))
-    text = "\n".join(imports) + "\n" + strip(ed) + "\n" + strip(primes) + "\n" + strip(alg) + "\n" + hdr + abstract + coord + "end Bridge\n"
+    cst, cerrors, cnames = contract_statements(repo)
+    errors.update(cerrors)
+    vocab = open(os.path.join(D, "BridgeVocab.lean")).read() if os.path.exists(os.path.join(D, "BridgeVocab.lean")) else ""
+    text = "\n".join(imports) + "\n" + strip(ed) + "\n" + strip(primes) + "\n" + strip(alg) + "\n" + strip(vocab) + "\n" + hdr + abstract + coord + cst + "end Bridge\n"
     if proofs:
         text += "\n" + open(os.path.join(D, "BridgeProofsAbstract.lean")).read() + "\n" + open(os.path.join(D, "BridgeProofsCurve.lean")).read() + close_L + close_Q
     errors.update({"gen:" + k: v for k, v in gerrors.items()})
